@@ -45,6 +45,10 @@ class MsSqlImpl(SqlImpl):
         return "Latin1_General_bin"
 
     @classmethod
+    def supports_duration_literals(cls) -> bool:
+        return False
+
+    @classmethod
     def export(
         cls,
         nd: AstNode,
